@@ -12,7 +12,11 @@ static void rev(char *s) { char *e = s + strlen(s); while (s < --e) { char t = *
 static int arrparam(int a[10], int n) { return sizeof(a) == sizeof(int *) ? a[n] : -1; } static int mat(int m[][3], int r, int c) { return m[r][c]; } static int matp(int (*m)[3], int r, int c) { return *(*(m + r) + c); }
 static long diff(long *a, long *b) { return b - a; } static int cmpp(char *a, char *b) { return (a < b) + (a <= b) * 2 + (a == b) * 4 + (a != b) * 8 + (a > b) * 16 + (a >= b) * 32; }
 int garr[6] = { 10, 20, 30, 40, 50, 60 }; binop table[2] = { add, mul };
+/* wide literals of equal length that share a prefix are different objects with different contents */
+typedef __typeof__(L'a') wc_t; static const wc_t *wl1(void) { return L"abc"; } static const wc_t *wl2(void) { return L"axy"; } static const unsigned short *ul1(void) { return u"one"; } static const unsigned short *ul2(void) { return u"ons"; }
+static const unsigned *Ul1(void) { return U"qrst"; } static const unsigned *Ul2(void) { return U"qrsu"; } static const char *nl1(void) { return "same\0tail1"; } static const char *nl2(void) { return "same\0tail2"; }
 int main(void) {
+	printf("wl %c%c%c %c%c%c %c%c%c %c%c%c %c %c %c %c\n", wl1()[0], wl1()[1], wl1()[2], wl2()[0], wl2()[1], wl2()[2], ul1()[0], ul1()[1], ul1()[2], ul2()[0], ul2()[1], ul2()[2], Ul1()[3], Ul2()[3], nl1()[9], nl2()[9]);
 	int a = 1, b = 2, arr[5] = { 3, 9, 4, 9, 1 }; long la[4] = { 1, 2, 3, 4 }; short sa[4] = { 1, 2, 3, 4 }; char str[16];
 	swap(&a, &b); P(a); P(b); P(maxp(arr, 5) - arr); P(*maxp(arr, 5)); P(apply(add, 2, 3)); P(apply(pick(0), 2, 3)); P(table[1](6, 7)); P((*table)(6, 7)); P(pick(1) == add); P(pick(0) != add);
 	{ struct N *h = 0; int i; for (i = 1; i <= 8; ++i) h = push(h, i); P(sumlist(h)); P(h->next->next->v); freelist(h); }
